@@ -98,7 +98,6 @@ def parseOp (op : String) (args : List Json) : Option Op :=
 
 structure St where
   w : W := {}
-  fixed : Bool := true
 
 def handle (s : St) (op : String) (args : List Json) : St × Json :=
   match op, args with
@@ -114,8 +113,8 @@ def handle (s : St) (op : String) (args : List Json) : St × Json :=
     -- a raw request of another client (the loopback tier's external writer / the fake server's own self-check)
     let (sv, resp) := serve s.w.sv (jreq m t r d)
     ({ s with w := { s.w with sv := sv } }, respJson resp)
-  | "pinned", [b] => ({ s with fixed := !(jbool b) }, Json.arr #["unit"])
   | "discard_pinned", [h, sf, p] =>
+    -- the pinned tree's `discard` (before fixes/C16-discard-bookkeeping.patch); used to confirm the finding on an unpatched tree
     let (w, o) := discardPinned { s.w with plan := jplan p, log := [] } (jnat h) (jbool sf)
     ({ s with w := w }, Json.arr #[outJson o, logJson w.log, viewJson w])
   | _, _ =>
